@@ -331,7 +331,8 @@ structure St where
   /-- unlock in progress: (fiber performing it, ticket value it read) -/
   unl : Option (Nat × Nat)
   tree : Tree
-  /-- rest of the chain the wake pass is walking, and its wake time -/
+  /-- the nodes of the group removed from the tree that have not been made READY yet (head =
+      the node the wake pass is working on), and the group's wake time -/
   cur : List Nat
   curW : Nat
   pend : Option (Loc × Nat)
@@ -342,6 +343,8 @@ structure St where
       fiber_sleep calls; time the current fiber_sleep call began; ttc it read; its wake_time -/
   start : Nat → Nat
   req : Nat → Nat
+  /-- ghost: `guaranteed v (plan …)` of the API call in progress -/
+  guar : Nat → Nat
   credit : Nat → Nat
   segStart : Nat → Nat
   base : Nat → Nat
@@ -361,7 +364,7 @@ structure St where
 def init : St :=
   { now := 0, pending := 0, fl := [], ttc := 0, users := 0, ticket := 0, holder := none, unl := none,
     tree := .nil, cur := [], curW := 0, pend := none, pc := fun _ => .idle, segs := fun _ => [],
-    start := fun _ => 0, req := fun _ => 0, credit := fun _ => 0, segStart := fun _ => 0,
+    start := fun _ => 0, req := fun _ => 0, guar := fun _ => 0, credit := fun _ => 0, segStart := fun _ => 0,
     base := fun _ => 0, wake := fun _ => 0, stale := fun _ => false, badRead := false, lost := [],
     nPark := fun _ => 0, nWake := fun _ => 0, nRes := fun _ => 0 }
 
@@ -379,9 +382,11 @@ def step (v : Variant) (s : St) : Ev → Option St
       some { s with now := s.now + d, pending := s.pending + k }
     else none
   | .callSleep f kind a b t =>
-    if s.pc f = .idle ∧ t = s.now then
+    -- fiber id 0 is the main fiber (the clock); 0 also stands for NULL in the node cells
+    if s.pc f = .idle ∧ t = s.now ∧ f ≠ 0 then
       some { s with pc := upd s.pc f .called, segs := upd s.segs f (plan v kind a b),
                     start := upd s.start f s.now, req := upd s.req f (reqUs kind a b),
+                    guar := upd s.guar f (guaranteed v (plan v kind a b)),
                     credit := upd s.credit f 0, segStart := upd s.segStart f s.now,
                     stale := upd s.stale f false }
     else none
@@ -477,12 +482,14 @@ def step (v : Variant) (s : St) : Ev → Option St
     else if x = READY then
       match s.pc g with
       | .gotNext r n y =>
-        if v.nextFirst ∧ n = f ∧ s.pc f = .parked then
-          some { s with pc := upd (upd s.pc f .woken) g (afterNext r y), nWake := upd s.nWake f (s.nWake f + 1) }
+        if v.nextFirst ∧ n = f ∧ s.pc f = .parked ∧ s.cur.head? = some f ∧ y = s.cur.tail.head?.getD 0 then
+          some { s with cur := s.cur.tail, pc := upd (upd s.pc f .woken) g (afterNext r y),
+                        nWake := upd s.nWake f (s.nWake f + 1) }
         else none
       | .gotNode r n =>
-        if ¬ v.nextFirst ∧ n = f ∧ s.pc f = .parked then
-          some { s with pc := upd (upd s.pc f .woken) g (.sched r n), nWake := upd s.nWake f (s.nWake f + 1) }
+        if ¬ v.nextFirst ∧ n = f ∧ s.pc f = .parked ∧ s.cur.head? = some f then
+          some { s with cur := s.cur.tail, pc := upd (upd s.pc f .woken) g (.sched r n),
+                        nWake := upd s.nWake f (s.nWake f + 1) }
         else none
       | _ => none
     else none
@@ -515,21 +522,21 @@ def step (v : Variant) (s : St) : Ev → Option St
       match removeLt s.tree s.ttc with
       | some ((i, w, c), t') =>
         if n = i ∧ x = n ∧ pendOk t' s.pend then
-          some { s with tree := t', cur := c, curW := w, pend := none, pc := upd s.pc g (.gotNode r n) }
+          some { s with tree := t', cur := i :: c, curW := w, pend := none, pc := upd s.pc g (.gotNode r n),
+                        badRead := s.badRead || decide (s.pc n ≠ .parked) }
         else none
       | none => none
     | .needNode r y =>
-      match s.cur with
-      | c :: rest =>
-        if n = y ∧ c = y ∧ x = n then some { s with cur := rest, pc := upd s.pc g (.gotNode r n) } else none
-      | [] => none
+      if n = y ∧ s.cur.head? = some y ∧ x = n then
+        some { s with pc := upd s.pc g (.gotNode r n), badRead := s.badRead || decide (s.pc n ≠ .parked) }
+      else none
     | _ => none
   | .rNext g n x =>
     match s.pc g with
     | .inserting => if (lookup s.tree n).map (·.next) = some x then some s else none
     | .gotNode r m =>
-      if v.nextFirst ∧ n = m ∧ x = s.cur.head?.getD 0 then
-        some { s with pc := upd s.pc g (.gotNext r n x) }
+      if v.nextFirst ∧ n = m ∧ s.cur.head? = some n ∧ x = s.cur.tail.head?.getD 0 then
+        some { s with pc := upd s.pc g (.gotNext r n x), badRead := s.badRead || decide (s.pc n ≠ .parked) }
       else none
     | .sched r m =>
       if n = m then
@@ -695,6 +702,8 @@ structure MonSt where
   awaiting : List (Nat × Nat) := []
   /-- fibers woken and not yet resumed -/
   ready : List Nat := []
+  /-- the first stale read seen (the mechanism; reported together with its API-level consequence) -/
+  staleMsg : Option String := none
 
 def monStep (m : MonSt) (e : Ev) : Except String MonSt :=
   match e with
@@ -714,10 +723,12 @@ def monStep (m : MonSt) (e : Ev) : Except String MonSt :=
     | none => throw s!"double_resume fiber {f} resumed from fiber_sleep without an open sleep call"
     | some (kd, a, b, t, k) =>
       if ¬ m.ready.contains f then throw s!"double_resume fiber {f} resumed although no wake pass made it READY (second resume of one wake-up)"
-      else match m.awaiting.find? (·.2 = f) with
-        | some (g, _) => throw s!"stale_node_read fiber {f} resumed (on another kernel thread) before waker {g} read to_wake->next from {f}'s stack frame"
-        | none => pure { m with ready := m.ready.filter (· ≠ f),
-                                open_ := (f, (kd, a, b, t, k + 1)) :: m.open_.filter (·.1 ≠ f) }
+      else
+        let m := match m.awaiting.find? (·.2 = f), m.staleMsg with
+          | some (g, _), none => { m with staleMsg := some s!"stale_node_read fiber {f} resumed (on another kernel thread) before waker {g} read to_wake->next from {f}'s stack frame" }
+          | _, _ => m
+        pure { m with ready := m.ready.filter (· ≠ f), awaiting := m.awaiting.filter (·.2 ≠ f),
+                      open_ := (f, (kd, a, b, t, k + 1)) :: m.open_.filter (·.1 ≠ f) }
   | .retSleep f t =>
     match m.open_.lookup f with
     | none => throw s!"double_resume fiber {f} returned from a sleep it did not call"
@@ -735,15 +746,19 @@ def monStep (m : MonSt) (e : Ev) : Except String MonSt :=
   | _ => pure m
 
 def monitor (v : Variant) (evs : List Ev) (rawNotes : List (List String)) : Option String :=
+  let withStale (m : MonSt) (msg : String) : String :=
+    match m.staleMsg with
+    | some st => msg ++ "; " ++ st
+    | none => msg
   let rec go (m : MonSt) : List Ev → Option String
     | [] =>
       if rawNotes.any (fun n => n.head? = some "lost") then
-        some s!"lost_sleeper fibers {m.open_.map (·.1)} never resumed although virtual time went far beyond every deadline and every kernel thread kept polling"
+        some (withStale m s!"lost_sleeper fibers {m.open_.map (·.1)} never resumed although virtual time went far beyond every deadline and every kernel thread kept polling")
       else if rawNotes.any (fun n => n.head? = some "starved") then
-        some "others_starved a runnable fiber made no progress while other fibers slept"
-      else none
+        some (withStale m "others_starved a runnable fiber made no progress while other fibers slept")
+      else m.staleMsg
     | e :: es => match monStep m e with
-      | .error msg => some msg
+      | .error msg => some (withStale m msg)
       | .ok m' => go m' es
   go { v := v } evs
 
